@@ -5,6 +5,7 @@ import (
 	"go/ast"
 	"go/token"
 	"go/types"
+	"sort"
 	"strings"
 )
 
@@ -345,4 +346,342 @@ func isParamOrResult(info *types.Info, fd *ast.FuncDecl, o types.Object) bool {
 		}
 	}
 	return false
+}
+
+// ---------------------------------------------------------------------------------------------------
+// G39 IsNil on a result of a reflective call only for nillable kinds
+
+func init() {
+	register("G39", "in rpc/ a reflect.Value that comes out of a reflective call of a published function (an element of the list returned by reflect.Value.Call) is asked IsNil() only where its kind is known to be nillable (reflect2.IsNullable(v.Kind()), a comparison of v.Kind() with Ptr/Map/Slice/Func/Chan/Interface, in the same condition or on the path): the kind of a result is chosen by whoever wrote the function - a last result of a concrete error type that is a struct made IsNil panic, and the caller got 'call of reflect.Value.IsNil on struct Value' instead of the function's error", 2, ruleG39)
+}
+
+func ruleG39(r *Run) {
+	p := r.P
+	nullable := map[string]bool{"Ptr": true, "Pointer": true, "Map": true, "Slice": true, "Func": true, "Chan": true, "Interface": true, "UnsafePointer": true}
+	for _, pkg := range p.Pkgs {
+		if !strings.Contains(pkg.PkgPath, "/rpc") {
+			continue
+		}
+		info := pkg.TypesInfo
+		for _, file := range pkg.Syntax {
+			for _, d := range file.Decls {
+				fd, ok := d.(*ast.FuncDecl)
+				if !ok || fd.Body == nil {
+					continue
+				}
+				defs := localDefs(info, fd.Body)
+				parents := parentMap(fd.Body)
+				// fromCall: the list of results of a reflective call, or an element of it
+				var fromCall func(e ast.Expr, depth int) bool
+				fromCall = func(e ast.Expr, depth int) bool {
+					e = ast.Unparen(e)
+					if depth > 5 {
+						return false
+					}
+					switch x := e.(type) {
+					case *ast.CallExpr:
+						return FullNameOf(info, x) == "reflect.Value.Call" || FullNameOf(info, x) == "reflect.Value.CallSlice"
+					case *ast.IndexExpr:
+						return fromCall(x.X, depth+1)
+					case *ast.SliceExpr:
+						return fromCall(x.X, depth+1)
+					case *ast.Ident:
+						if o := info.Uses[x]; o != nil {
+							if def, ok := defs[o]; ok {
+								return fromCall(def, depth+1)
+							}
+							// out = out[:n-1]: assigned more than once, every time from itself or from a call
+							all, any := true, false
+							ast.Inspect(fd.Body, func(m ast.Node) bool {
+								if as, ok := m.(*ast.AssignStmt); ok && len(as.Lhs) == len(as.Rhs) {
+									for i, l := range as.Lhs {
+										if identObj(info, l) == o {
+											rh := ast.Unparen(as.Rhs[i])
+											if mentionsObj(info, rh, o) {
+												continue
+											}
+											any = true
+											if depth > 3 || !fromCall(rh, depth+2) {
+												all = false
+											}
+										}
+									}
+								}
+								return true
+							})
+							return any && all
+						}
+					}
+					return false
+				}
+				n := 0
+				ast.Inspect(fd.Body, func(m ast.Node) bool {
+					c, ok := m.(*ast.CallExpr)
+					if !ok || FullNameOf(info, c) != "reflect.Value.IsNil" {
+						return true
+					}
+					sel := c.Fun.(*ast.SelectorExpr)
+					if !fromCall(sel.X, 0) {
+						return true
+					}
+					n++
+					key := fmt.Sprintf("IsNil on a result of a reflective call in %s #%d", p.DeclName(fd), n)
+					recv := types.ExprString(sel.X)
+					var root types.Object
+					ast.Inspect(sel.X, func(q ast.Node) bool {
+						if id, ok := q.(*ast.Ident); ok && root == nil {
+							root = info.Uses[id]
+						}
+						return root == nil
+					})
+					// facts: the path conditions plus the operands that short-circuit evaluation has already decided
+					facts := factsWithSwitch(parents, c)
+					var child ast.Node = c
+					for q := parents[c]; q != nil; q = parents[q] {
+						b, ok := q.(*ast.BinaryExpr)
+						if ok && (b.Op == token.LOR || b.Op == token.LAND) && b.Y == child {
+							add := factAdder(parents, c, &facts)
+							add(b.X, b.Op == token.LOR)
+						}
+						if _, isExpr := q.(ast.Expr); !isExpr {
+							break
+						}
+						child = q
+					}
+					good := false
+					for _, f := range facts {
+						if f.neg {
+							continue
+						}
+						ast.Inspect(f.e, func(q ast.Node) bool {
+							switch x := q.(type) {
+							case *ast.CallExpr:
+								if strings.HasSuffix(FullNameOf(info, x), "reflect2.IsNullable") && len(x.Args) == 1 && kindOf(info, x.Args[0], recv, root) {
+									good = true
+								}
+							case *ast.BinaryExpr:
+								if x.Op == token.EQL {
+									for _, pr := range [][2]ast.Expr{{x.X, x.Y}, {x.Y, x.X}} {
+										if kindOf(info, pr[0], recv, root) {
+											if o := qualObj(info, pr[1]); o != nil && o.Pkg() != nil && o.Pkg().Path() == "reflect" && nullable[o.Name()] {
+												good = true
+											}
+										}
+									}
+								}
+							}
+							return true
+						})
+					}
+					// switch v.Kind() { case reflect.Ptr, reflect.Map, ...: v.IsNil() }
+					for q := parents[c]; q != nil && !good; q = parents[q] {
+						cc, ok := q.(*ast.CaseClause)
+						if !ok || len(cc.List) == 0 {
+							continue
+						}
+						if blk, ok := parents[cc].(*ast.BlockStmt); ok {
+							if sw, ok := parents[blk].(*ast.SwitchStmt); ok && sw.Tag != nil && kindOf(info, sw.Tag, recv, root) {
+								all := true
+								for _, e := range cc.List {
+									if o := qualObj(info, e); o == nil || o.Pkg() == nil || o.Pkg().Path() != "reflect" || !nullable[o.Name()] {
+										all = false
+									}
+								}
+								good = all
+							}
+						}
+					}
+					r.Check(good, key, c.Pos(), "the kind of "+recv+" is known to be nillable here", recv+" is a result of a function the application published; IsNil() panics for a kind without nil (a struct-typed error), and no test of "+recv+".Kind() guards the call")
+					return true
+				})
+			}
+		}
+	}
+}
+
+// kindOf: e is <recv>.Kind() (recv compared by text, or a local that stands for it)
+func kindOf(info *types.Info, e ast.Expr, recv string, root types.Object) bool {
+	c, ok := ast.Unparen(e).(*ast.CallExpr)
+	if !ok || methodName(c) != "Kind" {
+		return false
+	}
+	sel, ok := c.Fun.(*ast.SelectorExpr)
+	if !ok {
+		return false
+	}
+	if types.ExprString(sel.X) == recv {
+		return true
+	}
+	// v.Type().Kind()
+	if tc, ok := ast.Unparen(sel.X).(*ast.CallExpr); ok && methodName(tc) == "Type" {
+		if ts, ok := tc.Fun.(*ast.SelectorExpr); ok && types.ExprString(ts.X) == recv {
+			return true
+		}
+	}
+	return false
+}
+
+// qualObj: the object an identifier or a qualified identifier (reflect.Ptr) stands for
+func qualObj(info *types.Info, e ast.Expr) types.Object {
+	if sel, ok := ast.Unparen(e).(*ast.SelectorExpr); ok {
+		return info.Uses[sel.Sel]
+	}
+	return identObj(info, e)
+}
+
+// ---------------------------------------------------------------------------------------------------
+// F6 a value encoder emits something on every path
+
+func init() {
+	register("F6", "every Write and Encode method of a type that implements io.ValueEncoder passes, on every path that returns normally, at least one call that can put bytes into the encoder's buffer (a function of package io that - directly or through its callees - assigns Encoder.buf, a call through a ValueEncoder or handler value, or any call that is handed the encoder and cannot be resolved): a path without one writes NOTHING for the value, and the enclosing list, map or object then has fewer items than its head announces (a nil `error` field: `c..2{s1\"x\"s3\"err\"}o0{1}` - two fields announced, one value written, the rest of the stream is misread)", 20, ruleF6)
+}
+
+type f6State struct{ emitted bool }
+
+func (s *f6State) Key() string  { return fmt.Sprint(s.emitted) }
+func (s *f6State) Copy() PState { n := *s; return &n }
+
+func ruleF6(r *Run) {
+	p := r.P
+	pkg := p.Pkg("io")
+	if pkg == nil {
+		r.Undec("package io", 0, "not found")
+		return
+	}
+	info := pkg.TypesInfo
+	bufF := p.LookupField("io", "Encoder", "buf")
+	veObj, _ := p.LookupObj("io", "ValueEncoder").(*types.TypeName)
+	if bufF == nil || veObj == nil {
+		r.Undec("io.Encoder.buf / io.ValueEncoder", 0, "not found")
+		return
+	}
+	ve, _ := veObj.Type().Underlying().(*types.Interface)
+	if ve == nil {
+		r.Undec("io.ValueEncoder", 0, "not an interface")
+		return
+	}
+	// mayEmit: functions of package io that can put bytes into Encoder.buf
+	decls := map[*types.Func]*ast.FuncDecl{}
+	for _, file := range pkg.Syntax {
+		for _, d := range file.Decls {
+			if fd, ok := d.(*ast.FuncDecl); ok && fd.Body != nil {
+				if f, _ := info.Defs[fd.Name].(*types.Func); f != nil {
+					decls[f] = fd
+				}
+			}
+		}
+	}
+	mayEmit := map[*types.Func]bool{}
+	encT := types.NewPointer(bufF.Pkg().Scope().Lookup("Encoder").Type())
+	dynamicEmit := func(c *ast.CallExpr) bool {
+		// a call through an interface of package io (ValueEncoder.Write/Encode): assumed to emit, every
+		// implementation is an instance of this rule; a call of a function VALUE that is handed the encoder
+		// (an encode handler out of a table): assumed to emit
+		if sel, ok := ast.Unparen(c.Fun).(*ast.SelectorExpr); ok {
+			if s := info.Selections[sel]; s != nil && s.Kind() == types.MethodVal {
+				if _, isIface := s.Recv().Underlying().(*types.Interface); isIface {
+					f := s.Obj()
+					return f.Pkg() != nil && f.Pkg() == bufF.Pkg() && (f.Name() == "Write" || f.Name() == "Encode")
+				}
+				return false
+			}
+		}
+		if Callee(info, c) != nil {
+			return false
+		}
+		if tv, ok := info.Types[c.Fun]; ok && !tv.IsType() && !tv.IsBuiltin() {
+			if _, isSig := tv.Type.Underlying().(*types.Signature); isSig {
+				for _, a := range c.Args {
+					if at, ok := info.Types[a]; ok && types.Identical(at.Type, encT) {
+						return true
+					}
+				}
+			}
+		}
+		return false
+	}
+	for f, fd := range decls {
+		ast.Inspect(fd.Body, func(m ast.Node) bool {
+			if as, ok := m.(*ast.AssignStmt); ok {
+				for _, l := range as.Lhs {
+					if fieldOf(info, l) == bufF {
+						mayEmit[f] = true
+					}
+				}
+			}
+			return true
+		})
+	}
+	for changed := true; changed; {
+		changed = false
+		for f, fd := range decls {
+			if mayEmit[f] {
+				continue
+			}
+			ast.Inspect(fd.Body, func(m ast.Node) bool {
+				if c, ok := m.(*ast.CallExpr); ok && !mayEmit[f] {
+					if g := Callee(info, c); (g != nil && mayEmit[g]) || dynamicEmit(c) {
+						mayEmit[f] = true
+						changed = true
+					}
+				}
+				return true
+			})
+		}
+	}
+	for f, fd := range decls {
+		if fd.Recv == nil || (f.Name() != "Write" && f.Name() != "Encode") {
+			continue
+		}
+		sig := f.Type().(*types.Signature)
+		rt := sig.Recv().Type()
+		if !types.Implements(rt, ve) && !types.Implements(types.NewPointer(rt), ve) {
+			continue
+		}
+		key := "emission on every path of " + p.DeclName(fd)
+		var bad []string
+		w := &Walk{Info: info}
+		w.Event = func(w *Walk, ps PState, n ast.Node) []PState {
+			switch x := n.(type) {
+			case *ast.CallExpr:
+				if g := Callee(info, x); (g != nil && mayEmit[g]) || dynamicEmit(x) {
+					return []PState{&f6State{emitted: true}}
+				}
+			case *ast.AssignStmt:
+				for _, l := range x.Lhs {
+					if fieldOf(info, l) == bufF {
+						return []PState{&f6State{emitted: true}}
+					}
+				}
+			}
+			return nil
+		}
+		w.Exit = func(w *Walk, ps PState, kind flowKind, at ast.Node) {
+			if kind == fPanic || ps.(*f6State).emitted {
+				return
+			}
+			where := "the end of the function"
+			if at != nil {
+				where = p.Rel(at.Pos())
+			}
+			bad = append(bad, where)
+		}
+		w.Run(fd.Body, &f6State{})
+		if len(w.Undecided) > 0 {
+			r.Undec(key, fd.Pos(), strings.Join(w.Undecided, "; "))
+			continue
+		}
+		sort.Strings(bad)
+		r.Check(len(bad) == 0, key, fd.Pos(), "every normal exit has passed a call that can emit", fmt.Sprintf("%s can return without having written anything (exit at %s): the value is missing from the stream and the enclosing item has fewer elements than its head announces", p.DeclName(fd), strings.Join(dedupStr(bad), ", ")))
+	}
+}
+
+func dedupStr(in []string) []string {
+	var out []string
+	for i, s := range in {
+		if i == 0 || s != in[i-1] {
+			out = append(out, s)
+		}
+	}
+	return out
 }
